@@ -108,7 +108,7 @@ def consumeHs (s : Screen) (c : Conn) (fuel : Nat) : Conn × List String :=
       else (c', line :: s!"!ORACLE {c.id} ServerInit does not report the real screen: real {s.w}x{s.h} pf={hex s.pf} name={hex want.name}" :: out)
 
 /-- handle the messages of the normal phase that sit in the connection's buffer -/
-def consumeNormal (view : Nat × Nat) (c : Conn) : Conn × List String := Id.run do
+def consumeNormal (s : Screen) (view : Nat × Nat) (c : Conn) : Conn × List String := Id.run do
   if c.buf.isEmpty then return (c, [])
   let (ms, err) := match parseAll c.pctx c.buf with
     | .ok ms => (ms, none)
@@ -134,6 +134,11 @@ def consumeNormal (view : Nat × Nat) (c : Conn) : Conn × List String := Id.run
             out := out ++ [s!"!EXACT {c.id} size announcement uses {encName r.hdr.enc}, predicted {encName want}"]
           if (r.hdr.w, r.hdr.h) ≠ view then
             out := out ++ [s!"!EXACT {c.id} size announcement {r.hdr.w}x{r.hdr.h}, the client's view of the screen is {view.1}x{view.2}"]
+          if r.hdr.enc = rfbEncodingExtDesktopSize then
+            -- every field of the screen list is big-endian and is what the application's hooks report
+            if r.payload ≠ extDesktopPayload s view then
+              out := out ++ [s!"!ORACLE {c.id} ExtDesktopSize screen list {hex (r.payload.take 40)} is not what the application reports: {hex ((extDesktopPayload s view).take 40)}"]
+            c := { c with owedExtDS := false }
           c := { c with annW := r.hdr.w, annH := r.hdr.h }
         | _ => pure ()
       else
@@ -164,7 +169,7 @@ def consume (s : Screen) (c : Conn) : Conn × List String :=
   let (c1, o1) := consumeHs s c (c.expectHs.length + 1)
   if !c1.expectHs.isEmpty then (c1, o1)
   else if c1.phase == .normal then
-    let (c2, o2) := consumeNormal (c1.viewSize s) c1
+    let (c2, o2) := consumeNormal s (c1.viewSize s) c1
     (c2, o1 ++ o2)
   else if c1.phase == .closed then
     -- the protocol says the server has closed the connection (failed authentication, security type
@@ -220,6 +225,10 @@ def endOfOp (s : DState) : DState × List String := Id.run do
       if !c.preds.isEmpty then
         out := out ++ [s!"!EXACT {c.id} {c.preds.length} planned FramebufferUpdate(s) never appeared on the wire"]
         c := { c with preds := [] }
+      if c.owedExtDS then
+        if c.phase == .normal then
+          out := out ++ [s!"!EXACT {c.id} the non-incremental request of an ExtDesktopSize client was not answered by an ExtDesktopSize rectangle"]
+        c := { c with owedExtDS := false }
     cs := cs ++ [c]
   return ({ s with conns := cs }, out)
 
@@ -275,6 +284,8 @@ def dstep (s : DState) (toks : List String) : DState × List String :=
       else if k = "ledhook" then { sc with cfg := { sc.cfg with ledHook := b } }
       else if k = "norichx" then { sc with cfg := { sc.cfg with noRichToX := b } }
       else if k = "passwd" then { sc with passwd := b }
+      else if k = "extscreens" then { sc with extScreens := some (natD v) }
+      else if k = "extfail" then { sc with extFail := some (natD v), extScreens := some (sc.extScreens.getD 1) }
       else if k = "protominor" then
         (if natD v > 2 ∧ natD v < 9 then { sc with protoMinor := natD v } else sc)
       else sc
@@ -311,7 +322,15 @@ def dstep (s : DState) (toks : List String) : DState × List String :=
       let es := encs.map natD
       let (caps, _) := setEncodings s.scr.cfg c.caps es
       { c with caps := caps, hist := c.hist ++ es, cur := es }
-  | ["fbur", id, _, _, _, _, _] => withNormal s id fun c => { c with ready := true }
+  | ["fbur", id, inc, x, y, _, _] =>
+    withNormal s id fun c =>
+      -- `if (!msg.fur.incremental) { … if (cl->useExtDesktopSize) cl->newFBSizePending = TRUE; }`: the next
+      -- update is the ExtDesktopSize rectangle (unless the application's screen hook fails)
+      let hookFails := match s.scr.extFail with
+        | some k => k < s.scr.extScreens.getD 1
+        | none => false
+      let owed := c.owedExtDS || (inc == "0" && x == "0" && y == "0" && c.caps.useExtDesktopSize && !hookFails)
+      { c with ready := true, owedExtDS := owed }
   | ["ptr", id, mask, x, y] =>
     match getConn s (natD id) with
     | none => (s, [])
